@@ -343,12 +343,25 @@ def _case(repo, it, S, spec):
     def make():
         par = parent_for(which)
         objs = [build(it, S, par, m) for m in ms]
-        return mk_collection(it, objs[:2], objs[2:], sequence_name="chr1", qualifiers={"q": ["1"]}, parent_or_seq_chunk_parent=par), []
+        ac = mk_collection(it, objs[:2], objs[2:], sequence_name="chr1", qualifiers={"q": ["1"]}, parent_or_seq_chunk_parent=par)
+        # a dictionary with the exported parent, and a pickle state: arguments of the importing operations below
+        d = it.call_func(repo.fn("gene.collections:AnnotationCollection.to_dict"), [], {"export_parent": True}, ac, 0)
+        st = it.call_func(repo.fn("gene.collections:AnnotationCollection.__getstate__"), [], {}, ac, 0)
+        return ac, [d, st]
 
     def ops(it, repo, ac, args):
         q = "gene.collections:AnnotationCollection"
         a, b = (4, 40) if which == "chrom" else (3, 40)
-        return [("to_dict", _call(it, repo, f"{q}.to_dict", ac)),
+        d, st = args
+
+        def setstate():
+            fresh = Obj("AnnotationCollection")
+            it.call_func(repo.fn(f"{q}.__setstate__"), [st], {}, fresh, 0)
+            return it.call_func(repo.fn(f"{q}.to_dict"), [], {}, fresh, 0)
+        return [("from_dict(dictionary with exported parent)", lambda: it.call_func(repo.fn(f"{q}.to_dict"), [], {}, it.call_func(repo.fn(f"{q}.from_dict"), [d], {}, None, 0), 0)),
+                ("from_dict(same dictionary) again", lambda: it.call_func(repo.fn(f"{q}.to_dict"), [], {}, it.call_func(repo.fn(f"{q}.from_dict"), [d], {}, None, 0), 0)),
+                ("__setstate__(state)", setstate), ("__setstate__(same state) again", setstate),
+                ("to_dict", _call(it, repo, f"{q}.to_dict", ac)),
                 ("to_gff", lambda: [it.py_str(r) for r in it.iterate(it.call_func(repo.fn(f"{q}.to_gff"), [], {}, ac, 0))]),
                 ("query_by_position", _call(it, repo, f"{q}.query_by_position", ac, [a, b], {"completely_within": False})),
                 ("query strict", _call(it, repo, f"{q}.query_by_position", ac, [a, b])),
@@ -423,6 +436,49 @@ def rc_construction(ctx):
     results = pmap(_runner(ctx.repo, _construct_case), specs, min_items=2)
     _report(ctx, "C10.RC", results, [(q, "children keep state and answers when a container is built around them") for q in (
         "gene.gene:GeneInterval.__init__", "gene.feature:FeatureIntervalCollection.__init__", "gene.collections:AnnotationCollection.__init__")])
+
+
+def rr_repeatable_outcomes(ctx):
+    """an outcome - a value or a documented refusal - is the same the first time, the second time, and in a process that never
+    asked before (interned codons, memoised sequences, caches keyed on text)"""
+    r, repo = ctx.r, ctx.repo
+    from ..genekernel import mk_sequence
+    from .c05 import mk_cds
+
+    def questions(it):
+        S = strands(it)
+        par = chrom_parent(it, "ATGA-GTAACCGATG", alphabet="NT_EXTENDED_GAPPED")
+        q = []
+        for c in ("A-G", "AT", "ATGA", "XYZ", "a-g", "ATG", "AUG"):
+            q.append((f"Codon({c!r})", "gene.codon:Codon.__init__", lambda c=c: it.py_str(it.apply(ClassTok("Codon"), [c], {}, None, 0))))
+        q.append(("translate(strict=False) over a gapped codon", "gene.cds:CDSInterval.translate",
+                  lambda: it.call_func(repo.fn("gene.cds:CDSInterval.translate"), [], {"strict": False}, mk_cds(it, [(0, 9)], S["PLUS"], [0], par), 0).fields["sequence"]))
+        q.append(("has_valid_stop over a gapped codon", "gene.cds:CDSInterval.has_valid_stop",
+                  lambda: it.call_func(repo.fn("gene.cds:CDSInterval.has_valid_stop"), [], {}, mk_cds(it, [(0, 9)], S["PLUS"], [0], par), 0)))
+        q.append(("extract_sequence of an unstranded location", "location.location_impl:SingleInterval.extract_sequence",
+                  lambda: it.call_func(repo.fn("location.location_impl:SingleInterval.extract_sequence"), [], {},
+                                       it.apply(ClassTok("SingleInterval"), [2, 6, S["UNSTRANDED"]], {"parent": par}, None, 0), 0)))
+        return q
+
+    def outcome(thunk):
+        try:
+            v = thunk()
+            return ("ok", canon(v))
+        except Raised as ex:
+            return ("raise", ex.exc_name)
+
+    it = gene_interp(repo, max_steps=10 ** 9)
+    qs = questions(it)
+    n = 0
+    for i, (label, qual, thunk) in enumerate(qs):
+        first = outcome(thunk)
+        second = outcome(thunk)
+        fresh_it = gene_interp(repo, max_steps=10 ** 9)
+        fresh = outcome(questions(fresh_it)[i][2])
+        n += 1
+        r.check(first == second == fresh, "C10.RR", qual, f"repeatable: {label}",
+                f"{label}: first time {_short(first)}, second time {_short(second)}, in a fresh process {_short(fresh)}", repo.fn(qual))
+    r.floor("C10.RR", "repeated questions", n, 8)
 
 
 def rh_history(ctx):
@@ -529,6 +585,7 @@ def r6_identity(ctx):
 RULES = [
     ("C10.RH", rh_history),
     ("C10.RC", rc_construction),
+    ("C10.RR", rr_repeatable_outcomes),
     ("C10.R5", r5_cache_keys),
     ("C10.R6", r6_identity),
 ]
